@@ -50,7 +50,7 @@ class Machine(_Base):
 
     def machine(self, col, tier):
         return tracker.make_machine(col, self, tier, CHECKS, kinds=('message', 'delete', 'bind', 'server_event', 'sync', 'newer', 'retype', 'enum', 'midsession',
-                                                                   'server_retype', 'repeat', 'clock_back', 'long_line'))
+                                                                   'server_retype', 'repeat', 'clock_back', 'long_line', 'dead_creates'))
 
 
 class DeepReuse(_Base):
